@@ -37,9 +37,18 @@ theorem commitMap_kept_not_zero (f : Nat → Option Bytes) (old id : Bytes) (m :
   simp [commitMap, h]
   intro h'; exact hz h'
 
-theorem refMap_cons (a b : Bytes) (rest : List (Bytes × Bytes)) :
+theorem refMap_cons (a b : Bytes) (rest : List (Bytes × Bytes)) (h : a ≠ b) :
     refMap ((a, b) :: rest) = a ++ [0x20] ++ b ++ [B.lf] ++ refMap rest := by
+  simp [refMap, h]
+
+/-- **ref-map lists only refs whose name changed**: a recorded pair with equal names (what `--tag-rename v:v` produces for
+    every tag it matches) writes no line. (Before the repair recorded as N21 such pairs were written as `name name`.) -/
+theorem refMap_skips_identity (a : Bytes) (rest : List (Bytes × Bytes)) : refMap ((a, a) :: rest) = refMap rest := by
   simp [refMap]
+
+theorem refMap_only_changed_names (renames : List (Bytes × Bytes)) :
+    refMap renames = refMap (renames.filter fun (a, b) => a != b) := by
+  simp [refMap, List.filter_filter]
 
 /-- the rename set is a set: inserting a pair twice records it once -/
 theorem setInsert_idem (x : Bytes × Bytes) (l : List (Bytes × Bytes)) (h : pairLt x x = false) :
